@@ -246,16 +246,20 @@ def pair_baseline(cls, tier):
     return _PAIR_BASE[key]
 
 
-def h_hist_pair(ctx, cls, tier, first):
+def h_hist_pair(ctx, cls, tier, first, cls_first=None, cost_first=None):
     """Schedule `first` of the box is built and exhausted (or only advanced), then a
-    target of the same class is compared with its fresh-interpreter stream."""
+    target of class cls is compared with its fresh-interpreter stream.  cls_first: the
+    first schedule comes from another class's box; cost_first: it gets another cost vector."""
     silence_repo_output()
     box = pair_box(cls, tier)
     base = pair_baseline(cls, tier)
+    fbox = pair_box(cls_first, tier) if cls_first else box
+    if cost_first:
+        fbox = [dict(b, uf=cost_first[0], ub=cost_first[1], wd=cost_first[2], rd=cost_first[3]) for b in fbox]
     how = ctx.choice("how", ["exhaust", "advance", "construct-only"])
     t = ctx.int("target", 0, len(box) - 1, eager=True)
     try:
-        lv = Live(box[first])
+        lv = Live(fbox[first])
         if how == "exhaust":
             lv.run()
         elif how == "advance":
@@ -265,7 +269,7 @@ def h_hist_pair(ctx, cls, tier, first):
     except PathAbort:
         raise
     except Exception as e:                                  # noqa: BLE001
-        ctx.fail("C15.stream_differs", {"first": box[first], "target": box[t], "exc": repr(e)})
+        ctx.fail("C15.stream_differs", {"first": fbox[first], "target": box[t], "exc": repr(e)})
     got = [tuple(a) for a in got]
     ctx.trace(("stream", tuple(got)))
     b = base[t]
@@ -273,7 +277,7 @@ def h_hist_pair(ctx, cls, tier, first):
     while k < min(len(got), len(b)) and got[k] == b[k]:
         k += 1
     ctx.require(len(got) == len(b) == k, "C15.stream_differs",
-                lambda: {"target": box[t], "history": [(how, box[first])],
+                lambda: {"target": box[t], "history": [(how, fbox[first])],
                          "first_difference_at": k, "got": got[k:k + 2], "fresh_interpreter": b[k:k + 2]})
     ctx.cover("__nontrivial__")
 
